@@ -174,7 +174,8 @@ func checkC10(t *testing.T, c *c10Case, rec *Recorder) []Diff {
 	if o.GorAfter > o.GorBefore {
 		add("goroutine-leak", "%d goroutines before the call, %d after it returned (faults %+v)", o.GorBefore, o.GorAfter, sc.Faults)
 	}
-	if o.FdBefore >= 0 && o.FdAfter != o.FdBefore {
+	// only growth is a leak (a finalizer of an earlier case may close a descriptor in between)
+	if o.FdBefore >= 0 && o.FdAfter > o.FdBefore {
 		add("fd-leak", "%d file descriptors before, %d after (faults %+v)", o.FdBefore, o.FdAfter, sc.Faults)
 	}
 	rec.Case(scenarioKey(sc), nt, map[string]any{"variant": sc.Variant, "faults": sc.Faults, "err": fmt.Sprint(o.Err)}, labels...)
